@@ -7,7 +7,10 @@
 //       saved together;
 //   W2  and a build is started after the content was handed over;
 //   W3  every file a build reads becomes a watched file (a later save of it reaches the session);
-//   W4  after a successful build the output on disk is the code of that build, not an earlier one.
+//   W4  after a successful build the output on disk is the code of that build, not an earlier one
+//       (also when two builds differ in white space only - inside a string literal that is a change);
+//   W5  the text a change event hands over is the text the host's own read_file_content gives for
+//       that file: the two ways a file's text reaches the session agree (line ends, BOM, ...).
 import fs from "node:fs";
 import path from "node:path";
 import { Rng } from "./lib.mjs";
@@ -75,13 +78,19 @@ export function watchLoopLeg(outDir, N, root) {
       const dir = path.join(outDir, "watchloop_proj_" + process.pid);
       fs.rmSync(dir, { recursive: true, force: true });
       fs.mkdirSync(dir, { recursive: true });
-      const files = ["entry.ts", "a.ts", "b.ts", "sub/c.ts"];
+      // (files of linked workspace packages are named by their node_modules path)
+      const files = ["entry.ts", "a.ts", "b.ts", "sub/c.ts", "node_modules/linked-pkg/index.ts", "packages/lib/node_modules/dep/src/t.ts"];
+      const style = Object.fromEntries(files.map((f) => [f, rng.below(5)]));
       const abs = (f) => path.join(dir, f);
       const version = {};
       const put = (f) => {
         version[f] = (version[f] || 0) + 1;
         fs.mkdirSync(path.dirname(abs(f)), { recursive: true });
-        fs.writeFileSync(abs(f), `// ${f} version ${version[f]}\nexport type T = ${version[f]};\n`);
+        let text = `// ${f} version ${version[f]}\nexport type T = ${version[f]};\nexport type M = \`line one\nline two ${version[f]}\`;\n`;
+        if (style[f] === 1) text = text.replace(/\n/g, "\r\n");
+        else if (style[f] === 2) text = "\ufeff" + text;
+        else if (style[f] === 3) text = text.replace(/;\n/g, ";  \t\n") + "\n\n";
+        fs.writeFileSync(abs(f), text);
       };
       for (const f of files) put(f);
       fs.writeFileSync(abs("bff.json"), JSON.stringify({ parser: "entry.ts", outputDir: "gen", module: rng.pick(["esm", "cjs", undefined]) }));
@@ -95,7 +104,10 @@ export function watchLoopLeg(outDir, N, root) {
           buildNo++;
           res.builds++;
           if (rng.chance(1, 5)) return undefined; // a build that fails
-          lastCode = `/*CODE ${i}.${buildNo}*/`;
+          const lit = JSON.stringify(rng.pick(["on hold", "onhold", "on  hold", "on\thold", "on hold "]));
+          // one build in three differs from the one before in white space inside a string literal only
+          if (lastCode && rng.chance(1, 3)) lastCode = lastCode.replace(/"[^"]*"/, lit);
+          else lastCode = `/*CODE ${i}.${buildNo}*/ export const s = ${lit};`;
           return lastCode;
         },
       };
@@ -141,6 +153,16 @@ export function watchLoopLeg(outDir, N, root) {
           } else if (!calls.some((c, k) => c.name === "bundle_to_string_v2" && k > last.k)) {
             viol("watch-loop-change-is-not-followed-by-a-build", { history: i, file: f, calls: calls.map((c) => c.name) });
           }
+          if (last && typeof globalThis.read_file_content === "function") {
+            let own;
+            try {
+              own = quiet(() => globalThis.read_file_content(abs(f)));
+            } catch {
+              own = undefined;
+            }
+            res.ingress_compared = (res.ingress_compared || 0) + 1;
+            if (typeof own === "string" && own !== last.c.args[1]) viol("watch-loop-hands-over-other-text-than-the-host-reads", { history: i, file: f, handed_over: JSON.stringify(String(last.c.args[1]).slice(0, 60)), host_reads: JSON.stringify(own.slice(0, 60)) });
+          }
         }
         if (!calls.some((c) => c.name === "bundle_to_string_v2")) viol("watch-loop-change-is-not-followed-by-a-build", { history: i, files: fired, calls: calls.map((c) => c.name) });
         for (const x of readSet) everRead.add(x);
@@ -148,7 +170,7 @@ export function watchLoopLeg(outDir, N, root) {
           // the build succeeded: the output on disk is this build's code
           const outFile = abs("gen/parser.js");
           const text = fs.existsSync(outFile) ? fs.readFileSync(outFile, "utf8") : "";
-          if (!text.includes(lastCode)) viol("watch-loop-output-on-disk-is-not-the-last-successful-build", { history: i, expected: lastCode, found: (text.match(/\/\*CODE [\d.]+\*\//) || [null])[0] });
+          if (!text.includes(lastCode)) viol("watch-loop-output-on-disk-is-not-the-last-successful-build", { history: i, expected: lastCode, found: (text.match(/\/\*CODE [\d.]+\*\/[^\n]*/) || [null])[0] });
         }
       }
       res.files_read += everRead.size;
